@@ -28,7 +28,7 @@ RULE = (
     "values of a reference model (an assignment on one copy changes that copy and nothing else). Non-trivial: key depth >=3 with a textual value, or an invalid key; distinct by JSON."
 )
 ASSUMPTIONS = [
-    "textual values with quotes, backslashes, leading/trailing blanks, hex/underscore/inf/nan spellings or Python keywords (True/None) are outside what a text literally denotes unambiguously and are not generated",
+    "textual values with quotes, backslashes, leading/trailing blanks, hex/underscore/inf/nan spellings or Python keywords (True/None) are outside what a text literally denotes unambiguously and are not generated - except the texts 'True' / 'False' assigned to a model's enabled flag, which must set the boolean (a command-line override has no other way to pass one)",
     "a tuple-looking text may come back as tuple or list with equal elements",
 ]
 SHARDS = {"quick": 8, "thorough": 16}
@@ -111,7 +111,7 @@ def valid_cases(draw):
             x = draw(st.one_of(st.sampled_from([lo, hi]), st.floats(lo, hi)))
             v = draw(st.sampled_from([x, repr(float(x))]))
     elif kind == "enabled":
-        v = draw(st.booleans())
+        v = draw(st.sampled_from([True, False, "True", "False"]))  # the texts are what `--override <key>=False` on the command line passes
     else:
         v = draw(arg_values)
     return {"proc": ps, "key": key, "kind": kind, "value": v}
@@ -288,6 +288,8 @@ def body_valid(case, rec):
         rec.check(proc.has(key) is True, "has_false_for_valid_key", key)
         proc.set(key, actual(v))
         want = denote(v)
+        if case["kind"] == "enabled" and textual:
+            want = v == "True"
         after = settings(proc, ps)
         changed = diff_settings(before, after)
         rec.check(same_value(after[key], want), "value_not_assigned_as_denoted", f"{key} <- {v!r}: holds {after[key]!r}, denotes {want!r}")
